@@ -56,6 +56,8 @@ pub struct OutputRec {
     pub url: String,
     /// Ok(json of the literal) | Err(kind)
     pub result: Result<Value, String>,
+    /// the delivery to the destination failed (injected)
+    pub delivery_failed: bool,
 }
 
 #[derive(Clone, Debug)]
@@ -81,6 +83,8 @@ pub struct Shared {
     pub msg_calls: AtomicUsize,
     /// gate MPC messages too (otherwise they are delivered immediately)
     pub gate_msgs: bool,
+    /// every output() call fails (unreachable destination)
+    pub fail_outputs: bool,
 }
 
 impl Shared {
@@ -204,8 +208,9 @@ impl PolicyClient for GatedClient {
             Ok(l) => Ok(serde_json::to_value(&l).unwrap_or(Value::Null)),
             Err(e) => Err(output_err_kind(&e)),
         };
-        self.shared.outputs.lock().unwrap().push(OutputRec { t, comp: self.comp, party: self.me, url: to.to_string(), result });
-        Ok(())
+        let failed = self.shared.fail_outputs;
+        self.shared.outputs.lock().unwrap().push(OutputRec { t, comp: self.comp, party: self.me, url: to.to_string(), result, delivery_failed: failed });
+        if failed { Err(ClientErr::Injected) } else { Ok(()) }
     }
 }
 
@@ -267,6 +272,8 @@ pub struct Scenario {
     /// parties whose schedule is never submitted
     pub skip_schedule: Vec<(usize, usize)>,
     pub max_steps: usize,
+    /// the output destination is unreachable: every output() call returns an error
+    pub fail_outputs: bool,
 }
 
 #[derive(Clone, Debug)]
@@ -346,6 +353,7 @@ pub fn explore(sc: &Scenario) -> RunRecord {
             rpcs: Mutex::new(vec![]),
             msg_calls: AtomicUsize::new(0),
             gate_msgs: sc.gate_msgs,
+            fail_outputs: sc.fail_outputs,
         });
         let n_parties = sc.policies.iter().map(|c| c.len()).max().unwrap_or(0);
         let sems: Vec<Arc<Semaphore>> = (0..n_parties).map(|_| Arc::new(Semaphore::new(sc.concurrency))).collect();
@@ -689,7 +697,7 @@ pub fn record_json(r: &RunRecord) -> Value {
     json!({
         "schedule": r.schedule.iter().map(call).collect::<Vec<_>>(),
         "injected": r.injected.iter().map(call).collect::<Vec<_>>(),
-        "outputs": r.outputs.iter().map(|o| json!({"t": o.t, "comp": o.comp, "party": o.party, "result": match &o.result { Ok(v) => json!({"Ok": v}), Err(e) => json!({"Err": e}) }})).collect::<Vec<_>>(),
+        "outputs": r.outputs.iter().map(|o| json!({"t": o.t, "comp": o.comp, "party": o.party, "result": match &o.result { Ok(v) => json!({"Ok": v}), Err(e) => json!({"Err": e}) }, "delivery_failed": o.delivery_failed})).collect::<Vec<_>>(),
         "coordination_rpcs": r.rpcs.iter().filter(|x| x.kind != RpcKind::Msg && x.fate != "unused").map(|x| json!({"t_issue": x.t_issue, "t_release": x.t_release, "t_done": x.t_done, "comp": x.comp, "from": x.from, "to": x.to, "kind": format!("{:?}", x.kind), "fate": x.fate, "result": x.result})).collect::<Vec<_>>(),
         "mpc_msg_rpcs": r.rpcs.iter().filter(|x| x.kind == RpcKind::Msg && x.fate != "unused").count(),
         "actors": r.actors.iter().map(|(c, p, f, pa)| json!({"comp": c, "party": p, "stopped": f, "panicked": pa})).collect::<Vec<_>>(),
